@@ -27,10 +27,15 @@ use kafka::Error;
 
 use val::{b, i, l, t, Val};
 
-// ---- counting allocator ------------------------------------------------
+// ---- counting, checking allocator ---------------------------------------
+// Records the largest single request (C13) and makes stale pointers observable (C18): a block is
+// overwritten with 0xDD before it is released, and realloc always moves the block (the old one is
+// poisoned and released), as a size-class allocator or a sanitizer does.  glibc alone keeps a
+// shrunk block in place and freed bytes intact, which hides dangling views.
 
 struct Counting;
 static MAX_ALLOC: AtomicUsize = AtomicUsize::new(0);
+const POISON: u8 = 0xDD;
 
 unsafe impl GlobalAlloc for Counting {
     unsafe fn alloc(&self, layout: Layout) -> *mut u8 {
@@ -42,11 +47,19 @@ unsafe impl GlobalAlloc for Counting {
         System.alloc_zeroed(layout)
     }
     unsafe fn dealloc(&self, ptr: *mut u8, layout: Layout) {
+        std::ptr::write_bytes(ptr, POISON, layout.size());
         System.dealloc(ptr, layout)
     }
     unsafe fn realloc(&self, ptr: *mut u8, layout: Layout, new_size: usize) -> *mut u8 {
         MAX_ALLOC.fetch_max(new_size, Ordering::Relaxed);
-        System.realloc(ptr, layout, new_size)
+        let new_layout = Layout::from_size_align_unchecked(new_size, layout.align());
+        let np = System.alloc(new_layout);
+        if !np.is_null() {
+            std::ptr::copy_nonoverlapping(ptr, np, layout.size().min(new_size));
+            std::ptr::write_bytes(ptr, POISON, layout.size());
+            System.dealloc(ptr, layout);
+        }
+        np
     }
 }
 
